@@ -267,3 +267,23 @@ prop("C12",
                 "interpreter versus a warmed one beyond memo transparency.",
      not_decided=["thread interleavings", "tree walkers and filters (constructed per call)", "state inside C extensions"],
      explanation="frame obligations: write set of a call within what the next call re-initialises")
+
+
+prop("C04",
+     level="proof",
+     level_text="Contracts on the etree builder's node primitives against the DOM-like abstract view [text, child, text, ...] "
+                "(the dom builder's primitives are one-line minidom calls, taken as the specification): appendChild, "
+                "insertBefore, removeChild, insertText (with and without a reference node), hasContent and reparentChildren "
+                "change the view exactly as the DOM operation does and keep the representation invariant "
+                "'_childNodes mirrors the ElementTree children' -- explored for wrappers with 0..3 children and every position "
+                "(bounded stand-in, not counted as proved; text/tails arbitrary). Proved without bound: the Clark-notation tag "
+                "follows name and namespace (_getETreeTag, _setName, _setNamespace). Ground/bounded on the real modules: the "
+                "ElementTree model used by the contracts agrees with xml.etree on all operation sequences up to length 4; "
+                "attribute dicts as the parser produces them read back identically from both builders.",
+     level_note="Trusted: pyvc, z3, spec/etmodel.py (validated as above), minidom as the meaning of the DOM operations. Assumed: "
+                "removeChild is only applied to nodes that no text follows (open elements). NOT decided: that the backend-neutral "
+                "algorithm (base.py, html5parser.py) calls the primitives identically for both builders (it is the same code, but "
+                "fragment extraction and getDocument differ per backend), comments/doctype wrappers, cloneNode, namespaceHTMLElements "
+                "off. One known finding (dom: 'href' lost next to 'xlink:href').",
+     not_decided=["whole-parse equivalence of the two builders", "getDocument/getFragment", "cloneNode", "namespaceHTMLElements=False"],
+     explanation="node primitives of the etree builder against the DOM view, bounded in child count")
